@@ -399,6 +399,47 @@ def overlap_mask(rng, kind=None):
     raise RuntimeError("could not generate a mask with overlapping bounding boxes")
 
 
+def island_mask(rng):
+    """a large region plus islands of ONE and TWO cells (every island cell is a boundary cell), separated by empty cells"""
+    n0, n1 = rng.randrange(12, 20), rng.randrange(12, 20)
+    m = np.zeros((n0, n1), dtype=bool)
+    a0, a1 = rng.randrange(4, 7), rng.randrange(4, 7)
+    m[a0:n0 - 2, a1:n1 - 2] = True                      # the main region
+    spots = [(1, 1), (1, n1 - 3), (n0 - 3, 1), (1, n1 // 2)]
+    rng.shuffle(spots)
+    k = rng.choice([1, 2, 2, 3])
+    sizes = [1, 2, 1][:k] if rng.random() < 0.5 else [2, 1, 2][:k]
+    for (i, j), sz in zip(spots, sizes):
+        if i >= a0 - 1 and j >= a1 - 1:
+            continue
+        m[i, j] = True
+        if sz == 2:
+            if rng.random() < 0.5 and not (i + 1 >= a0 - 1 and j >= a1 - 1):
+                m[i + 1, j] = True
+            elif not (i >= a0 - 1 and j + 1 >= a1 - 1):
+                m[i, j + 1] = True
+    if rng.random() < 0.3:
+        m[a0:n0 - 2, a1:n1 - 2] = False                # only islands: after dropping small regions at most one is left
+        m[a0 + 1:a0 + 4, a1 + 1:a1 + 5] = True
+    if rng.random() < 0.5:
+        m = m.T
+    if rng.random() < 0.5:
+        m = m[::-1, ::-1]
+    return np.ascontiguousarray(m)
+
+
+def gen_island_case(rng, n_dim=2):
+    m = island_mask(rng)
+    w = np.where(m, 1.0 + 0.2 * np.array([[rng.random() for _ in range(m.shape[1])] for _ in range(m.shape[0])]), 1e-4)
+    d = [rng.choice([0.05, 0.1, 0.25, 0.5, 1.0, 2.0]) for _ in range(n_dim)]
+    if rng.random() < 0.5:
+        d = [d[0]] * n_dim
+    extrude = None
+    if n_dim == 3:
+        extrude = [1e-4] * rng.randrange(1, 3) + [1.0] * rng.choice([1, 2]) + [1e-4] * rng.randrange(1, 3)
+    return table_case(w, d, extrude, "islands")
+
+
 def table_case(weights, deltas, extrude=None, shape_kind="table"):
     """contour case on a TableModel: the enclosed region is exactly {weights > 1/2} (x the extruded range)"""
     w = np.asarray(weights, dtype=float)
@@ -585,15 +626,23 @@ def plot_check(c, out):
 
 
 def coords_as_sets(cont, n_dim):
-    """-> (kind, list of point lists) from what _compute stored"""
+    """-> (kind, list of point lists) from what _compute stored; kind "malformed" (with a description instead of the sets)
+    when a multi-region result is not one list of n_dim equally long arrays per region"""
     co = cont.coordinates
     if isinstance(co, list):
         sets = []
-        for part in co:
-            arrs = [np.asarray(a, dtype=float) for a in part]
+        for r, part in enumerate(co):
+            try:
+                arrs = [np.asarray(a, dtype=float).ravel() for a in part]
+            except Exception:  # noqa
+                return "malformed", "coordinate set %d is not a list of arrays" % r
+            if len(arrs) != n_dim or len(set(len(a) for a in arrs)) != 1:
+                return "malformed", "coordinate set %d holds %d arrays of lengths %r for %d dimensions" % (r, len(arrs), [len(a) for a in arrs], n_dim)
             sets.append([[float(a[k]) for a in arrs] for k in range(len(arrs[0]))])
         return "many", sets
     co = np.asarray(co, dtype=float)
+    if co.ndim != 2:
+        return "malformed", "coordinates of shape %r" % (co.shape,)
     return "one", [[[float(v) for v in row] for row in co]]
 
 
@@ -615,6 +664,8 @@ def oracle_contour(c, out=None):
     centres = cont.cell_center_coordinates
     want = sorted(tuple(float(centres[d][i[d]]) for d in range(n)) for i in want_idx)
     kind, sets = coords_as_sets(cont, n)
+    if kind == "malformed":
+        return (dict(sig0, clause="regions"), "%d boundary cells in %d connected component(s), but %s" % (len(want_idx), len(components(want_idx, n)), sets))
     got = sorted(tuple(p) for s in sets for p in s)
     aniso = len(set(float(d) for d in cont.deltas)) > 1
     if len(got) != len(want) or got != want:
@@ -673,7 +724,10 @@ def coq_contour_case(c, out):
     sh = list(hdr_in.shape)
     st_ok = (st is not None and st.shape == (3,) * n and bool(np.all(st)) and st2 is not None and st2.shape == (3,) * n and bool(np.all(st2)))
     kind, sets = coords_as_sets(cont, n)
-    impl = "(IOne %s)" % rows_coq(sets[0]) if kind == "one" else "(IMany [%s])" % "; ".join(rows_coq(s) for s in sets)
+    if kind == "malformed":
+        impl = "(IMany [[[nan]]])"
+    else:
+        impl = "(IOne %s)" % rows_coq(sets[0]) if kind == "one" else "(IMany [%s])" % "; ".join(rows_coq(s) for s in sets)
     nbr = "[]"
     if out["knn"]:
         k = out["knn"][0]
@@ -793,6 +847,8 @@ def run(ctx):
         cases_c.append(gen_table_case(rng, 2, kind=["ridges", "nested", "lshapes", "arc"][i % 4]))
     for i in range(ctx.n(3, 20)):
         cases_c.append(gen_table_case(rng, 3))
+    for i in range(ctx.n(4, 30)):
+        cases_c.append(gen_island_case(rng, 3 if i % 4 == 3 else 2))
     for i in range(ctx.n(2, 12)):
         cases_c.append(gen_ridge_case(rng, 2))
     for i in range(ctx.n(1, 6)):
@@ -809,7 +865,7 @@ def run(ctx):
         n = len(c["desc"]["dims"])
         if "contour" in o:
             kind, sets = coords_as_sets(o["contour"], n)
-            key = "contour/%dd/%s%s" % (n, "one" if kind == "one" else "many", "+warn" if o["warned"] else "")
+            key = "contour/%dd/%s%s" % (n, kind, "+warn" if o["warned"] else "")
             try:
                 if len(set(float(d) for d in o["contour"].deltas)) > 1:
                     key += "/aniso"
